@@ -12,7 +12,7 @@ import json, os, shutil, subprocess, sys
 from concurrent.futures import ThreadPoolExecutor
 
 V = os.path.dirname(os.path.dirname(os.path.abspath(__file__)))
-SRC = "/tmp/seed"
+SRC = os.environ.get("SEED_SRC", "/tmp/seed")
 DST = os.path.join(V, "seeded")
 
 
@@ -28,6 +28,10 @@ def sh(cmd, cwd=None, env=None, timeout=1800):
 
 def confirm(prop, x):
     name = f"{prop}-{x}"
+    try:
+        real_prop = json.load(open(os.path.join(SRC, prop, "PROPERTY.json")))["id"]
+    except Exception:
+        real_prop = prop
     src = os.path.join(SRC, prop, "seeded_out", x)
     dst = os.path.join(DST, name)
     if os.path.isdir(dst) or not os.path.isfile(os.path.join(src, "patch.diff")):
@@ -43,14 +47,15 @@ def confirm(prop, x):
         meta = json.load(open(os.path.join(src, "meta.json")))
         demo = os.path.join(src, "demo.rs")
         shutil.copy(demo, os.path.join(wt, "tests", "seeded_demo.rs"))
-        r = sh(["cargo", "test", "--offline", "--test", "seeded_demo"], cwd=wt, env=env)
+        extra = meta.get("demo_test_args", [])
+        r = sh(["cargo", "test", "--offline", "--test", "seeded_demo"] + extra, cwd=wt, env=env)
         rec["demo_passes_without_change"] = r.returncode == 0
         a = sh(["git", "apply", os.path.join(src, "patch.diff")], cwd=wt)
         rec["patch_applies"] = a.returncode == 0
         rec["builds_std"] = sh(["cargo", "build", "--offline"], cwd=wt, env=env).returncode == 0
         rec["builds_alloc"] = sh(["cargo", "build", "--offline", "--no-default-features", "--features", "alloc"], cwd=wt, env=env).returncode == 0
         rec["builds_nostd"] = sh(["cargo", "build", "--offline", "--no-default-features"], cwd=wt, env=env).returncode == 0
-        r = sh(["cargo", "test", "--offline", "--test", "seeded_demo"], cwd=wt, env=env)
+        r = sh(["cargo", "test", "--offline", "--test", "seeded_demo"] + extra, cwd=wt, env=env)
         rec["demo_fails_with_change"] = r.returncode not in (0, 124)
         rec["demo_failure_excerpt"] = [l for l in r.stdout.splitlines() if "panicked" in l or "FAILED" in l or "assert" in l][:4]
         os.remove(os.path.join(wt, "tests", "seeded_demo.rs"))
@@ -66,7 +71,9 @@ def confirm(prop, x):
             os.makedirs(dst, exist_ok=True)
             shutil.copy(os.path.join(src, "patch.diff"), os.path.join(dst, "patch.diff"))
             shutil.copy(demo, os.path.join(dst, "demo.rs"))
-            meta["property"] = prop
+            meta["property"] = real_prop
+            if os.path.isfile(os.path.join(SRC, prop, "FOCUS.txt")):
+                meta["focus_given_to_the_author"] = open(os.path.join(SRC, prop, "FOCUS.txt")).read().strip()
             meta["origin"] = "written by an independent sub-agent given only the property text and a scratch worktree"
             meta["confirmed"] = rec
             json.dump(meta, open(os.path.join(dst, "meta.json"), "w"), indent=1)
